@@ -65,7 +65,7 @@ Lemma step_panic_known : forall st now idx e st' s,
   step st now idx e = (st', OPanic s) -> known_input st (now, idx, e) = true.
 Proof.
   intros st now idx e st' s H.
-  destruct e as [| ext | mo | f | | dt]; cbn [step] in H.
+  destruct e as [| ext | mo | f | | d | dt]; cbn [step] in H.
   - inversion H.
   - destruct ext; inversion H.
   - cbn [known_input].
@@ -77,6 +77,7 @@ Proof.
   - destruct (aget idx (peers st)) as [p|]; [|inversion H].
     destruct (lim_check (p_inv p) now) as [l ex]. destruct ex; inversion H.
   - inversion H.
+  - destruct (aget idx (peers st)); inversion H.
   - inversion H.
 Qed.
 
@@ -145,7 +146,7 @@ Theorem step_view : forall st now idx e st' o,
   step st now idx e = (st', o) -> is_tick e = false -> honest_view idx st' = honest_view idx st.
 Proof.
   intros st now idx e st' o H Ht.
-  destruct e as [| ext | mo | f | | dt]; cbn [step] in H; cbn [is_tick] in Ht; try discriminate.
+  destruct e as [| ext | mo | f | | d | dt]; cbn [step] in H; cbn [is_tick] in Ht; try discriminate.
   - inversion H; subst. apply put_view.
   - destruct (aget idx (peers st)); inversion H; subst; [apply put_view|reflexivity].
   - destruct (aget idx (peers st)) as [p|]; [|inversion H; subst; reflexivity].
@@ -157,6 +158,7 @@ Proof.
     destruct (lim_check (p_inv p) now) as [l ex].
     destruct ex; inversion H; subst; apply put_view.
   - inversion H; subst. reflexivity.
+  - destruct (aget idx (peers st)); inversion H; subst; [apply put_view|reflexivity].
 Qed.
 
 (* what a rejected / disconnected sender keeps of its own entry: key and key list *)
@@ -185,7 +187,7 @@ Proof.
   assert (Ht : is_tick e = false).
   { destruct e; try reflexivity. cbn [step] in H. inversion H; subst. destruct Ho; discriminate. }
   split; [eapply step_view; eassumption|].
-  destruct e as [| ext | mo | f | | dt]; cbn [step] in H; try discriminate.
+  destruct e as [| ext | mo | f | | d | dt]; cbn [step] in H; try discriminate.
   - inversion H; subst. destruct Ho; discriminate.
   - unfold identity_of at 2.
     destruct (aget idx (peers st)) as [p|] eqn:E; inversion H; subst.
@@ -213,6 +215,7 @@ Proof.
     destruct (lim_check (p_inv p) now) as [l ex].
     destruct ex; inversion H; subst; rewrite identity_put; reflexivity.
   - inversion H; subst. reflexivity.
+  - destruct (aget idx (peers st)); inversion H; subst; destruct Ho; discriminate.
 Qed.
 
 (* the listed inputs do panic: the class is exact, not an over-approximation *)
@@ -221,7 +224,7 @@ Theorem known_input_panics : forall st i,
   exists s, snd (step st (fst (fst i)) (snd (fst i)) (snd i)) = OPanic s.
 Proof.
   intros st [[now idx] e] H. cbn [fst snd]. cbn [known_input] in H.
-  destruct e as [| ext | mo | f | | dt]; try discriminate.
+  destruct e as [| ext | mo | f | | d | dt]; try discriminate.
   destruct mo as [m|]; [|discriminate].
   cbn [step].
   destruct (aget idx (peers st)) as [p|]; [|discriminate].
